@@ -77,6 +77,7 @@ func init() {
 			cfgTag(c, cfg, func() {
 				EFXReadOnlyTypes(c, cfg, an)
 				EFXReadOnlyTargets(c, cfg, an)
+				EFXGlobals(c, cfg, an)
 			})
 			c.R.Extra["efx_stats_"+cfg] = an.Stats
 			if cfg != "default" {
@@ -133,10 +134,12 @@ func init() {
 	extraRules["C13"] = both(stale("share/pvss", "proof/dleq"), roTargetsFor("share/pvss.", "proof/dleq."), loopShare("share/pvss", "proof/dleq"),
 		func(c *Ctx) { AccGate(c, "default", "C13") })
 	extraRules["C06"] = roTargetsFor(").Pair", ").ValidatePairing")
+	extraRules["__ro_c08"] = roTargetsFor("sign/eddsa.", "sign/schnorr.", "sign/anon.Verify", "sign/anon.Sign")
 	// ciphertexts, keys and messages are inputs only: a decryptor that writes into its ciphertext can
 	// make its own integrity comparison vacuous (anon header) or break a second decryption
 	extraRules["C16"] = roTargetsFor("encrypt/ecies.", "encrypt/ibe.", "sign/anon.Encrypt", "sign/anon.Decrypt")
-	extraRules["C08"] = both(stale("sign/schnorr", "sign/eddsa", "sign/anon"), entropyRule("C08"))
+	extraRules["C08"] = both(stale("sign/schnorr", "sign/eddsa", "sign/anon"), entropyRule("C08"),
+		func(c *Ctx) { extraRules["__ro_c08"](c) })
 	extraRules["C02"] = both(entropyRule("C02"), func(c *Ctx) {
 		for _, cfg := range []string{"default", "ct"} {
 			cfgTag(c, cfg, func() { ReduceDiscipline(c, cfg) })
@@ -219,6 +222,13 @@ func init() {
 		NilBase(c, "default")
 		CheckMustWrite(c, "C01")
 		SiblingAgreement(c, "default")
+		if p := c.Prog("default"); p != nil {
+			an := efx.NewAnalyzer(p)
+			EFXGlobals(c, "default", an)
+			// the generator / identity a group hands out must not be reachable for writing through a
+			// point that was set from it (Base/Null sharing storage with the group descriptor)
+			EFXValueSemantics(c, "default", an)
+		}
 	}})
 }
 
